@@ -41,7 +41,9 @@ DOMAINS = {
         {}, {"correct_tip_offset": {"method": "fit_constant_line"}},
         {"correct_tip_offset": {"method": "gradient_zero_crossing"}}],
     "range_type": ["absolute", "relative cp"],
-    "range_x": [[0, 0], [-5e-7, 1e-6], [-8e-7, 1e-6], [-5e-7, 5e-7]],
+    "range_x": [[0, 0], [-5e-7, 1e-6], [-8e-7, 1e-6], [-5e-7, 5e-7],
+                [1e-6, 0], [5e-7, 0],             # (inverted intervals)
+                [1e-6, 1e-6]],                    # (equal, non-zero)
     "segment": [0, 1],
     "weight_cp": [1e-6, 0, 5e-7],
     "gcf_k": [1.0, 0.5, 0.23],
@@ -96,8 +98,8 @@ def dont_care(key, base, v1, v2):
             not eff.get("optimal_fit_edelta", False):
         return True
     if key == "range_x" and eff.get("optimal_fit_edelta", False) \
-            and v1[1] == v2[1]:
-        return True
+            and max(v1) == max(v2):
+        return True       # same upper bound: only the lower one differs
     return False
 
 
@@ -124,6 +126,11 @@ def _case(case):
                  f"{key}={v1!r}: {h1} vs {h1b}")
         if h1.startswith("raises") or h2.startswith("raises"):
             return out, ("raises",)
+        if key == "range_x" and v1[0] == v1[1] and v2[0] == v2[1] \
+                and not dict(BASES[base]).get("optimal_fit_edelta", False):
+            # two zero-width intervals select the whole segment both:
+            # the setting cannot influence the result, nothing is demanded
+            return out, ("equivalent",)
         if dont_care(key, base, v1, v2):
             if h1 != h2:
                 viol("hash-dontcare", f"{base}:{key}", f"{v1!r} vs {v2!r} "
